@@ -110,6 +110,43 @@ func (r *Run) Classify(path *Path, i int) GuardClass {
 	}
 	cond := ast.Unparen(ev.Cond)
 	val := ev.Val
+	// a condition that is (the result of) a looked-into helper: classify what the helper returned
+	for hop := 0; hop < 3; hop++ {
+		var rhs ast.Expr
+		idx := 0
+		switch v := cond.(type) {
+		case *ast.CallExpr:
+			rhs = v
+		case *ast.Ident:
+			if obj := info.Uses[v]; obj != nil {
+				if x, k, ok := lastDefOnPath(fn, path, i, obj); ok && x != nil {
+					if _, isCall := ast.Unparen(x).(*ast.CallExpr); isCall {
+						rhs, idx = x, k
+					}
+				}
+			}
+		}
+		if rhs == nil {
+			break
+		}
+		res, rfn, ok := p.inlinedResults(fn, rhs)
+		if !ok || idx >= len(res) {
+			break
+		}
+		nc := ast.Unparen(res[idx])
+		for {
+			if u, ok := nc.(*ast.UnaryExpr); ok && u.Op == token.NOT {
+				nc = ast.Unparen(u.X)
+				val = !val
+				continue
+			}
+			break
+		}
+		if tv, ok := rfn.Info().Types[nc]; ok && tv.Value != nil {
+			break // a literal result: nothing more to learn
+		}
+		cond, fn, info = nc, rfn, rfn.Info()
+	}
 	reqPrefix := func(c string) bool { return strings.HasPrefix(c, "var:") }
 	joinedCanon := func(c string) bool {
 		return c == "recv.currentSession" || c == "recv.currentParticipant"
@@ -344,8 +381,33 @@ func (r *Run) codeOnPath(path *Path, i int, ml *MsgLit) *types.Const {
 	}
 	if id, ok := ast.Unparen(cx).(*ast.Ident); ok {
 		obj := ml.Fn.Info().Uses[id]
-		if rhs, _, ok := lastDefOnPath(ml.Fn, path, i, obj); ok && rhs != nil {
-			return constOf(ml.Fn.Info(), rhs)
+		if rhs, idx, ok := lastDefOnPath(ml.Fn, path, i, obj); ok && rhs != nil {
+			if c := constOf(ml.Fn.Info(), rhs); c != nil {
+				return c
+			}
+			// code computed by a looked-into helper: what it returned on this path
+			if res, rfn, ok := r.P.inlinedResults(ml.Fn, rhs); ok && idx < len(res) {
+				return r.constThroughLocals(rfn, path, res[idx])
+			}
+		}
+	}
+	if call, ok := ast.Unparen(cx).(*ast.CallExpr); ok {
+		if res, rfn, ok := r.P.inlinedResults(ml.Fn, call); ok && len(res) == 1 {
+			return r.constThroughLocals(rfn, path, res[0])
+		}
+	}
+	return nil
+}
+
+func (r *Run) constThroughLocals(fn *Func, path *Path, x ast.Expr) *types.Const {
+	if c := constOf(fn.Info(), x); c != nil {
+		return c
+	}
+	if id, ok := ast.Unparen(x).(*ast.Ident); ok {
+		if obj := fn.Info().Uses[id]; obj != nil {
+			if rhs, _, ok := lastDefOnPath(fn, path, len(path.Events), obj); ok && rhs != nil {
+				return constOf(fn.Info(), rhs)
+			}
 		}
 	}
 	return nil
